@@ -51,7 +51,7 @@ func (c *countCtx) polls() int {
 	return c.n
 }
 
-var stubNames = []string{"probe", "id", "probe2", "probe3", "vprobe", "fv", "typed", "typed2", "vtyped", "boom", "zero", "two", "eachcb", "callcb0", "cbv", "panicwith", "panicctx", "wantsptr", "wantsptr2", "wantsstr", "wantsints"}
+var stubNames = []string{"probe", "id", "probe2", "probe3", "vprobe", "fv", "typed", "typed2", "vtyped", "boom", "zero", "two", "eachcb", "callcb0", "cbv", "panicwith", "panicctx", "wantsptr", "wantsptr2", "wantsstr", "wantsints", "reterr", "reterr2"}
 
 // vmResult is one run of a parsed program on the real interpreter.
 type vmResult struct {
@@ -124,6 +124,9 @@ func defineStubs(e *env.Env, tr func(interface{})) {
 	must(e.Define("wantsptr2", func(a interface{}, p *int64) int64 { return 0 }))
 	must(e.Define("wantsstr", func(s struct{ A int }) int64 { return 0 }))
 	must(e.Define("wantsints", func(xs []int64, c chan int64) int64 { return 0 }))
+	// host functions that RETURN an error value (nothing is raised): an ordinary result
+	must(e.Define("reterr", func() error { tr("reterr"); return fmt.Errorf("returned, not raised") }))
+	must(e.Define("reterr2", func() (int64, error) { tr("reterr2"); return 3, fmt.Errorf("returned, not raised") }))
 	must(e.Define("zero", func() {}))
 	must(e.Define("two", func() (interface{}, interface{}) { return int64(1), "two" }))
 }
